@@ -224,6 +224,21 @@ impl Database {
         // Open pager
         let mut pager = Pager::open(&path)?;
 
+        // Transaction ids handed out since the last checkpoint are only known to the log.
+        // Never hand them out again: rows recovered from (or already written back by) those
+        // transactions carry these ids and must end up below the new snapshots' horizon.
+        let logged = pager.run_analysis()?;
+        if let Some(max_logged) = logged.lsn_chains.keys().max().copied()
+            && max_logged >= pager.get_last_created_transaction()
+        {
+            pager.set_last_created_transaction(max_logged + 1);
+        }
+        // Transactions that never committed (open at the crash, or rolled back since the last
+        // checkpoint) are losers: whatever they wrote that reached the data file stays invisible.
+        for loser in logged.needs_undo.iter() {
+            pager.mark_transaction_aborted(*loser);
+        }
+
         let total_pages = pager.total_allocated_pages();
 
         let (meta_table, meta_index) = if total_pages == 1 {
